@@ -1259,24 +1259,33 @@ def _run_allclose(
                 ),
             )
 
+        # Compare in a type that can hold both sides. Casting the model output to
+        # the reference dtype first would truncate a float result against an
+        # integer reference (2.9 -> 2) or turn any non-zero integer into True and
+        # report a deviating model as a match.
+        try:
+            common_dtype = np.result_type(expected_arr.dtype, got_arr.dtype)
+        except TypeError:
+            common_dtype = expected_arr.dtype
+        expected_cmp = expected_arr.astype(common_dtype, copy=False)
+        got_cmp = got_arr.astype(common_dtype, copy=False)
+
         if _is_floating_dtype(expected_arr) or _is_floating_dtype(got_arr):
             if not np.allclose(
-                expected_arr,
-                got_arr.astype(expected_arr.dtype, copy=False),
+                expected_cmp,
+                got_cmp,
                 rtol=rtol,
                 atol=atol,
                 equal_nan=True,
             ):
-                diff = np.abs(expected_arr - got_arr)
+                diff = np.abs(expected_cmp - got_cmp)
                 max_diff = float(diff.max()) if diff.size else 0.0
                 return (
                     False,
                     f"Output {idx} mismatch (max abs diff {max_diff}, rtol={rtol}, atol={atol})",
                 )
         else:
-            if not np.array_equal(
-                expected_arr, got_arr.astype(expected_arr.dtype, copy=False)
-            ):
+            if not np.array_equal(expected_cmp, got_cmp):
                 return (False, f"Output {idx} mismatch (non-floating tensors differ)")
 
     return True, "Outputs match within tolerance."
